@@ -301,6 +301,25 @@ def r7_reaper_cannot_die(ctx):
     ctx.floor("R12.7", "arithmetic statements seen in the reapers (matcher self-check)", n_arith, 2)
 
 
+def r8_every_tick_runs_a_pass(ctx):
+    """the periodic reaper looks at the pool on every tick: no way from one tick to the next avoids taking the idle map (a skip
+    "while the pool is busy" is never lifted under steady traffic: surplus sessions are never closed and dead entries never purged)"""
+    kids = [k for k in spawned_children(ctx, POOL + "start_cleanup_task") if calls_norm(k, "Session::close")]
+    if not kids:
+        return      # R12.2 reports the missing reaper
+    body = kids[0]
+    cfg, o = ctx.cfg(body), ctx.origins(body)
+    ticks = [c for c in body.calls() if (c.norm or "").endswith(("Interval::tick", "time::sleep", "time::sleep_until"))]
+    takes = [c for c in calls_norm(body, "RwLock::write", "RwLock::<T>::write", "Mutex::lock", "Mutex::<T>::lock", "RwLock::read", "RwLock::<T>::read") if c.args and "idle_sessions" in fmt(o.of_operand(c.args[0]))]
+    if not ticks or not takes:
+        ctx.missing("R12.8", "tick / acquisition of the idle map in the periodic reaper")
+        return
+    ok, p = cfg.must_pass(cfg.succ(ticks[0].bb), [ticks[0].bb], via_blocks=[c.bb for c in takes])
+    ctx.ob("R12.8", "periodic:every-tick-takes-the-idle-map", ok, takes[0].site, "no way from a tick back to the tick avoids the scan of the idle map" if ok else
+           "the periodic reaper can go from one tick to the next without looking at the pool (a `continue` ahead of the scan): while that condition holds — e.g. a 'pool was touched since the last tick' flag under "
+           "steady traffic — expired surplus sessions are never closed and closed ones never leave the map", path=None if ok else render_path(body, p)[:12])
+
+
 def run(ctx):
     from . import C20 as _C20t
     _C20t.r12_subtractions(ctx, _C20t.input_reachable(ctx))   # no subtraction (sizes, Durations) that can underflow and kill the task that computes it
@@ -309,7 +328,9 @@ def run(ctx):
     r7_reaper_cannot_die(ctx)
     r1_entry_points(ctx)
     r2_to_r6_reapers(ctx)
+    r8_every_tick_runs_a_pass(ctx)
     from . import C13, C09
+    C09.r12_close_is_never_cancelled(ctx)   # neither close() nor the registration of a new session in the pool is raced against a timer: a session that is not registered is never reaped
     C09.r1_locks(ctx)        # the pool never waits on a lock it holds itself (a request that meets a dead entry still returns)
     C13.r7_pool_config_is_what_was_given(ctx)   # the reaper works with the configured idle minimum / timeout / interval
     C09.r3_recv_exits(ctx)   # every way the receive loop ends closes the session: a pooled session whose connection died reports closed
